@@ -127,6 +127,11 @@ func (r *Runner) Resolve(ctx context.Context, v Expression) (result interface{},
 func try2Float64(v interface{}) interface{} {
 	switch n := v.(type) {
 	case *decimal.Big:
+		// Big.Float64 multiplies float64(coefficient) by a power of ten, which rounds twice
+		// once the power exceeds 1e22; parsing the decimal text rounds once.
+		if r, err := strconv.ParseFloat(n.String(), 64); err == nil || errors.Is(err, strconv.ErrRange) {
+			return r
+		}
 		r, _ := n.Float64()
 		return r
 	}
